@@ -58,9 +58,18 @@ def programs(text):
         elif (l == "PL" or l.startswith("PL ")) and cur is not None:
             cur.append(l[3:])
         elif l.startswith("PR") and cur is not None:
-            res.append((arch, mw, cur, l))
+            res.append([arch, mw, cur, l, None, None])
             cur = None
+        elif l.startswith("PD") and res and res[-1][4] is None:
+            res[-1][4] = l[2:].strip()
+        elif l.startswith("PS") and res and res[-1][5] is None:
+            res[-1][5] = l[2:].strip()
     return res
+
+
+def dis_items(t):
+    """'op a b ; op c' -> [[op, a, b], [op, c]] with numbers normalised"""
+    return [norm_tokens("I " + x) for x in t.split(";")] if t and t.strip() else []
 
 
 def compare_programs(impl, model, st, fails):
@@ -69,7 +78,7 @@ def compare_programs(impl, model, st, fails):
     if len(pi) != len(pm):
         fails.append({"kind": "oracle-desync", "arch": "", "line": "programs", "impl": str(len(pi)), "model": str(len(pm))})
         return
-    for (a, mw, src, ri), (_, _, _, rm) in zip(pi, pm):
+    for (a, mw, src, ri, pdi, psi), (_, _, _, rm, pdm, _) in zip(pi, pm):
         st["programs"] = st.get("programs", 0) + 1
         instr = [l for l in src if l.split() and not l.split()[0].startswith("#")]
         st["program_comment_lines"] = st.get("program_comment_lines", 0) + (len(src) - len(instr))
@@ -88,10 +97,21 @@ def compare_programs(impl, model, st, fails):
             fails.append({"kind": "property-fails-on-impl", "arch": a, "line": "PROGRAM", "program": src, "impl": [ri], "model": [rm],
                           "why": "Arch.Assembler panicked on a source text"})
             continue
+        if ri.startswith("PR ok") and pdi is not None:
+            # Machine.Disassembler on the whole program = the words disassembled one by one
+            st["programs_disassembled"] = st.get("programs_disassembled", 0) + 1
+            if pdi.startswith("panic") or pdi == "err" or dis_items(pdi) != dis_items(psi or ""):
+                fails.append({"kind": "property-fails-on-impl", "arch": a, "line": "PROGRAM", "program": src, "impl": [ri, "PD " + pdi, "PS " + str(psi)], "model": [rm],
+                              "why": "Machine.Disassembler on the whole program differs from the same words disassembled one at a time"})
+                continue
         if rm == "PR unmodelled":
             continue
         if ri != rm:
             fails.append({"kind": "correspondence", "arch": a, "line": "PROGRAM", "program": src, "impl": [ri], "model": [rm]})
+        elif ri.startswith("PR ok") and pdi is not None and pdm is not None:
+            di, dm = dis_items(pdi), dis_items(pdm)
+            if len(di) != len(dm) or any(x != y for x, y in zip(di, dm) if x and x[0] not in LENIENT):
+                fails.append({"kind": "correspondence", "arch": a, "line": "PROGRAM", "program": src, "impl": [ri, "PD " + pdi], "model": [rm, "PD " + pdm]})
 
 
 def norm_tokens(iline):
@@ -244,7 +264,7 @@ def run(rep):
         "properties are still evaluated for them on the Go side, but no theorem covers them (listed under unmodelled_ops)",
     ]
     tot = {"archs": 0, "lines": 0, "ok": 0, "err": 0, "unmodelled_lines": 0, "len_compared": 0, "programs": 0, "programs_ok": 0,
-           "program_comment_lines": 0}
+           "program_comment_lines": 0, "programs_disassembled": 0}
     by_op = {}
     distinct = set()
     unmod = set()
